@@ -159,6 +159,7 @@ func c33gRun(t *testing.T, name string) {
 	defer kit.Flush()
 	kit.Note("rule-grandpa", c33GrandpaRule)
 	d := c33gDecoders[name]
+	defer d.ReportRatios()
 	rapid.Check(t, func(t *rapid.T) { c33h.RunCase(t, d) })
 }
 
